@@ -521,6 +521,9 @@ func (c *CEnv) call(e *CExpr) *Val {
 	case "unboxStr":
 		w.BG.Funs["unbox.Str"] = FunSig{Name: "unbox.Str", Args: []Sort{SRef}, Res: SStr}
 		return &Val{T: App("unbox.Str", SStr, arg(0).T), Ty: types.Typ[types.String]}
+	case "unboxInt":
+		w.BG.Funs["unbox.Int"] = FunSig{Name: "unbox.Int", Args: []Sort{SRef}, Res: SInt}
+		return &Val{T: App("unbox.Int", SInt, arg(0).T), Ty: types.Typ[types.Int]}
 	case "inSet":
 		return &Val{T: Select(arg(0).T, arg(1).T), Ty: boolTy}
 	}
